@@ -497,8 +497,48 @@ Proof.
     + exact (iO s HI).
   - (* reinsertion *)
     rewrite Hrr.
-    destruct (idx_get (kidx s)) as [[[sq1 v1] b1]|] eqn:Hg.
-    + unfold idx_get in Hg. destruct (kidx s) as [[sq2 v2 b2|sq2]|] eqn:Hi; inversion Hg; subst. clear Hg.
+    assert (Hdrop : Inv (set_q s q)).
+    { (* dropped *)
+      set (s' := set_q s q).
+      assert (Hp' : pipe s' = ki s ++ q) by reflexivity.
+      assert (Hsub : forall y, In y (pipe s') -> In y (pipe s)).
+      { rewrite Hp', Hpipe. intros y Hy. apply in_app_or in Hy. apply in_or_app. destruct Hy; [left|right; right]; auto. }
+      assert (Hcl : forall y, In y (claims s') -> In y (claims s)).
+      { apply claims_mono; auto. }
+      assert (Hback : forall y, In y (pipe s) -> plain y = true -> In y (pipe s')).
+      { rewrite Hp', Hpipe. intros y Hy Hpy. apply in_app_or in Hy. apply in_or_app.
+        destruct Hy as [Hy|[Hy|Hy]]; [left; auto|subst y; discriminate|right; auto]. }
+      constructor.
+      * intros cn sq0 Hin. exact (iA1 s HI _ _ (Hcl _ Hin)).
+      * exact (iA2 s HI).
+      * intros v0 sq0 Hin. exact (iA3 s HI _ _ (Hcl _ Hin)).
+      * exact (iA4 s HI).
+      * intros Ht. apply incl_nil_eq. intros y Hin. rewrite <- (iB0 s HI Ht). auto.
+      * intros tc tsq Ht cn sq0 Hin. exact (iB1 s HI _ _ Ht _ _ (Hcl _ Hin)).
+      * intros vt tsq Ht v' sq0 Hin. exact (iB2 s HI _ _ Ht _ _ (Hcl _ Hin)).
+      * exact (iC s HI).
+      * exact (iD s HI).
+      * exact (iE s HI).
+      * exact (iF s HI).
+      * exact (iF2 s HI).
+      * intros tsq Ht. destruct (iG s HI _ Ht) as [G1 G2]. split.
+        -- intros Hin. apply G1. auto.
+        -- intros Hnin. apply G2. intros Hin. apply Hnin. apply Hback; auto.
+      * rewrite Hp'. rewrite <- (filter_plain_drop (ki s) v sq q). exact Hsort.
+      * intros y t Hin Hpy Ht. apply Hback; [|destruct t as [[?|] ?]; reflexivity].
+        eapply (iJ5 s HI); [apply Hsub; exact Hin|exact Hpy|exact Ht].
+      * intros vt tsq Hd Ht y Hin Hpy. eapply (iJ3 s HI); [exact Hd|exact Ht|apply Hsub; exact Hin|exact Hpy].
+      * exact (iK2 s HI).
+      * exact (iK3 s HI).
+      * intros vm l a Hm. destruct (iL s HI _ _ _ Hm) as [L1|L2]; [left; auto|right].
+        intros v' sq0 Hin. exact (L2 _ _ (Hcl _ Hin)).
+      * exact (iP s HI).
+      * exact (iO s HI).
+    }
+    destruct (idx_get (kidx s)) as [[[sq1 v1] b1]|] eqn:Hg; [|exact Hdrop].
+    destruct (sq1 =? sq) eqn:Esq; [|exact Hdrop].
+    clear Hdrop.
+    unfold idx_get in Hg. destruct (kidx s) as [[sq2 v2 b2|sq2]|] eqn:Hi; inversion Hg; subst. clear Hg.
       set (s' := set_i _ _).
       assert (Hp' : pipe s' = pipe s).
       { unfold pipe. subst s'; sproj. rewrite Hkq. rewrite <- app_assoc. reflexivity. }
@@ -540,42 +580,6 @@ Proof.
       * rewrite Hp'. exact (iJ4 s HI).
       * rewrite Hp'. exact (iJ5 s HI).
       * rewrite Hp'. exact (iJ3 s HI).
-      * exact (iK2 s HI).
-      * exact (iK3 s HI).
-      * intros vm l a Hm. destruct (iL s HI _ _ _ Hm) as [L1|L2]; [left; auto|right].
-        intros v' sq0 Hin. exact (L2 _ _ (Hcl _ Hin)).
-      * exact (iP s HI).
-      * exact (iO s HI).
-    + (* dropped *)
-      set (s' := set_q s q).
-      assert (Hp' : pipe s' = ki s ++ q) by reflexivity.
-      assert (Hsub : forall y, In y (pipe s') -> In y (pipe s)).
-      { rewrite Hp', Hpipe. intros y Hy. apply in_app_or in Hy. apply in_or_app. destruct Hy; [left|right; right]; auto. }
-      assert (Hcl : forall y, In y (claims s') -> In y (claims s)).
-      { apply claims_mono; auto. }
-      assert (Hback : forall y, In y (pipe s) -> plain y = true -> In y (pipe s')).
-      { rewrite Hp', Hpipe. intros y Hy Hpy. apply in_app_or in Hy. apply in_or_app.
-        destruct Hy as [Hy|[Hy|Hy]]; [left; auto|subst y; discriminate|right; auto]. }
-      constructor.
-      * intros cn sq0 Hin. exact (iA1 s HI _ _ (Hcl _ Hin)).
-      * exact (iA2 s HI).
-      * intros v0 sq0 Hin. exact (iA3 s HI _ _ (Hcl _ Hin)).
-      * exact (iA4 s HI).
-      * intros Ht. apply incl_nil_eq. intros y Hin. rewrite <- (iB0 s HI Ht). auto.
-      * intros tc tsq Ht cn sq0 Hin. exact (iB1 s HI _ _ Ht _ _ (Hcl _ Hin)).
-      * intros vt tsq Ht v' sq0 Hin. exact (iB2 s HI _ _ Ht _ _ (Hcl _ Hin)).
-      * exact (iC s HI).
-      * exact (iD s HI).
-      * exact (iE s HI).
-      * exact (iF s HI).
-      * exact (iF2 s HI).
-      * intros tsq Ht. destruct (iG s HI _ Ht) as [G1 G2]. split.
-        -- intros Hin. apply G1. auto.
-        -- intros Hnin. apply G2. intros Hin. apply Hnin. apply Hback; auto.
-      * rewrite Hp'. rewrite <- (filter_plain_drop (ki s) v sq q). exact Hsort.
-      * intros y t Hin Hpy Ht. apply Hback; [|destruct t as [[?|] ?]; reflexivity].
-        eapply (iJ5 s HI); [apply Hsub; exact Hin|exact Hpy|exact Ht].
-      * intros vt tsq Hd Ht y Hin Hpy. eapply (iJ3 s HI); [exact Hd|exact Ht|apply Hsub; exact Hin|exact Hpy].
       * exact (iK2 s HI).
       * exact (iK3 s HI).
       * intros vm l a Hm. destruct (iL s HI _ _ _ Hm) as [L1|L2]; [left; auto|right].
@@ -1088,7 +1092,7 @@ Lemma kinv_flush c s b : bug_rr c = false -> KInv c s -> KInv c (do_flush c s b)
 Proof.
   intros Hrr HK. eapply kinv_frame; [exact HK|apply inv_flush; [auto|apply HK]| |].
   all: unfold do_flush; destruct (kq s) as [|[v sq|sq|v sq] q]; try reflexivity.
-  all: rewrite Hrr; destruct (idx_get (kidx s)); reflexivity.
+  all: rewrite Hrr; destruct (idx_get (kidx s)) as [[[sq1 v1] b1]|]; [destruct (sq1 =? sq)|]; reflexivity.
 Qed.
 
 Lemma kinv_complete c s : KInv c s -> KInv c (do_complete s).
@@ -1144,7 +1148,7 @@ Proof.
       * unfold pipe. rewrite Hki, Hkq. reflexivity.
       * apply IH. unfold do_flush. rewrite Hkq.
         destruct y as [v sq|sq|v sq]; cbn [kq ki set_q set_i set_idx set_disk set_tlog]; rewrite ?Hki; cbn in *; try lia.
-        destruct (if bug_rr c then Some (0, 0, 0) else idx_get (kidx s));
+        destruct (if bug_rr c then Some (sq, 0, 0) else idx_get (kidx s)) as [[[sq1 v1] b1]|]; [destruct (sq1 =? sq)|];
           cbn [kq ki set_q set_i set_idx set_disk set_tlog]; rewrite ?Hki; cbn in *; lia.
     + apply IH. unfold do_complete. rewrite Hki.
       destruct x as [v sq|sq|v sq]; cbn [kq ki set_q set_i set_idx set_keep set_done]; cbn in *; lia.
